@@ -933,3 +933,92 @@ func ruleExtenderKeepsSets(c *Ctx) {
 	}
 	c.note("C18-SOURCES (nil clause): %d set fields of returned external declarations judged", n)
 }
+
+// ruleMemoKeyPart (M-KEY, part clause): a memo whose key is a PART of a string (a slice `s[:i]` / `s[i:]` of it) holds
+// values that may depend on that part only.  If the stored value - by data or by the branches that decide it - also
+// depends on the whole string otherwise than through the key (the string is looked up, compared, handed to a call or
+// carried round a loop), two strings with the same part share one slot and the second gets the first one's answer
+// (C18-m30: "is the account covered by a declaration" memoised per parent account, although the walk starts at the
+// account itself - an exactly declared account and its undeclared sibling get one verdict).
+func ruleMemoKeyPart(c *Ctx) {
+	if c.ranOnce("ruleMemoKeyPart") {
+		return
+	}
+	n := 0
+	for _, f := range c.P.ModuleFuncs() {
+		for _, b := range f.Blocks {
+			for _, ins := range b.Instrs {
+				mu, ok := ins.(*ssa.MapUpdate)
+				if !ok {
+					continue
+				}
+				key, ok := stripConv(mu.Key).(*ssa.Slice)
+				if !ok {
+					continue
+				}
+				if bt, ok := key.X.Type().Underlying().(*types.Basic); !ok || bt.Info()&types.IsString == 0 {
+					continue
+				}
+				hasLookup := false
+				for _, b2 := range f.Blocks {
+					for _, in2 := range b2.Instrs {
+						if lk, ok := in2.(*ssa.Lookup); ok && lk.CommaOk && sameMapValue(lk.X, mu.Map) && stripConv(lk.Index) == ssa.Value(key) {
+							hasLookup = true
+						}
+					}
+				}
+				if !hasLookup {
+					continue
+				}
+				n++
+				whole := stripConv(key.X)
+				out := map[ssa.Value]bool{}
+				sliceWithControl(mu.Value, 0, out)
+				bad := ""
+				for w := range out {
+					if w == ssa.Value(key) {
+						continue
+					}
+					insW, ok := w.(ssa.Instruction)
+					if !ok {
+						continue
+					}
+					uses := false
+					for _, op := range insW.Operands(nil) {
+						if *op != nil && stripConv(*op) == whole {
+							uses = true
+						}
+					}
+					if !uses {
+						continue
+					}
+					switch x := w.(type) {
+					case *ssa.Slice:
+						continue // another cut of the string
+					case *ssa.Call:
+						if isIndexResult(x) {
+							continue
+						}
+						if bi, ok := x.Call.Value.(*ssa.Builtin); ok && bi.Name() == "len" {
+							continue
+						}
+						if cal := x.Call.StaticCallee(); cal != nil && cal.Pkg != nil && cal.Pkg.Pkg.Path() == "strings" && (cal.Name() == "Cut" || cal.Name() == "Contains" || cal.Name() == "Count") {
+							continue
+						}
+						bad = "a call is handed the whole string"
+					case *ssa.Phi:
+						bad = "the whole string is carried round a loop or merged"
+					case *ssa.Lookup:
+						bad = "the whole string is looked up"
+					case *ssa.BinOp:
+						bad = "the whole string is compared or concatenated"
+					}
+				}
+				c.check(bad == "", "M-KEY", funcName(f), "a memo keyed by a part of a string holds what depends on that part only", mu.Pos(),
+					"the stored value depends on the string through the key only",
+					"results are memoised under a part of a string (a cut of it) although the stored value also depends on the whole string ("+bad+"): two strings with the same part share a slot, the second is answered with the first one's result - the verdict for an account depends on which of its siblings was looked at first")
+			}
+		}
+	}
+	c.note("M-KEY (part clause): %d memos keyed by a part of a string", n)
+}
